@@ -24,12 +24,12 @@ type c01Dump struct {
 }
 
 type c01Meta struct {
-	Lines     []string  `json:"lines"`
-	Dumps     []c01Dump `json:"dumps"`
-	Ending    string    `json:"ending"` // normal | fail | exit | cancel
-	Injected  bool      `json:"injected"`
-	FileTabs  []string  `json:"file_tabs"` // file tables existing and committed after the whole program
-	Rows      int       `json:"rows"`
+	Lines    []string  `json:"lines"`
+	Dumps    []c01Dump `json:"dumps"`
+	Ending   string    `json:"ending"` // normal | fail | exit | cancel
+	Injected bool      `json:"injected"`
+	FileTabs []string  `json:"file_tabs"` // file tables existing and committed after the whole program
+	Rows     int       `json:"rows"`
 }
 
 func c01Table(rows int, off int) string {
@@ -249,10 +249,10 @@ func (c01) Gen(seed uint64, tier string) *Scenario {
 
 // commitSnapObserver snapshots the directory at every tx.commit.done.
 type commitSnapObserver struct {
-	start   DirState
-	snaps   []DirState
-	inSwap  bool
-	yields  int
+	start  DirState
+	snaps  []DirState
+	inSwap bool
+	yields int
 }
 
 func (o *commitSnapObserver) OnArrival(k *Kernel, g *G, a *arrival) {
